@@ -43,6 +43,11 @@ LEAFTYPES = [
     ("pytree", S("?n")),
     ("pytree", S("?n m")),
     ("union", [("int",), S("?n")]),
+    # first alternative binds '?n' and then fails on a later axis (rollback of a '?' binding), second must pass
+    ("union", [S("?n 3"), S("?n 4")]),
+    ("union", [S("?n 3"), S("3 ?n")]),
+    ("union", [S("?n 3"), S("_ 4")]),
+    ("union", [S("?n ?k 9"), S("?k ?n _")]),
     # a '?' axis used after a structure-less inner PyTree within the same leaf
     ("tuple", [("pytree", S("?n")), S("?n 2")]),
 ]
